@@ -266,7 +266,9 @@ POSITIONS = {
     'arg':     ('lambda: f(%s, z)', 'value'),
     'kwarg':   ('(f(x, k=(%s)) for x in T)', 'value'),
 }
-POS_CLASS = {'filter': 'filter', 'filter2': 'filter', 'filter3': 'filter', 'elt': 'elt', 'lambda': 'lambda', 'arg': 'arg', 'kwarg': 'arg'}
+# position class of a finding key = where the expression's code lives: a filter of a generator, the element of a generator
+# (including a call argument inside the element), the body of a lambda (including a call argument inside the body)
+POS_CLASS = {'filter': 'filter', 'filter2': 'filter', 'filter3': 'filter', 'elt': 'elt', 'lambda': 'lambda', 'arg': 'lambda', 'kwarg': 'elt'}
 HOLE = 'HOLE__'
 
 
@@ -447,11 +449,23 @@ def reductions(e):
     return out
 
 
-def status(e, kind, cache=None):
+def shrink_atom_fn(atoms):
+    """printer for shrinking with the ORIGINAL atoms of a failing input (rich atoms change the bytecode, e.g. which exit
+    blocks CPython copies in a lambda): atoms the shrink introduces get plain names"""
+    if not atoms: return None
+    return lambda i: atoms[i] if i < len(atoms) else 'q%d' % i
+
+
+def shrunk_atoms(atoms, e):
+    """the atom list that goes with an expression shrunk under shrink_atom_fn(atoms)"""
+    return list(atoms) + ['q%d' % i for i in range(len(atoms), natoms(e))]
+
+
+def status(e, kind, cache=None, atoms=None):
     """'ok' | 'exc' | 'malformed' | 'wrong'   (Python-side evaluator; used for classification only)"""
-    ck = (key_tuple(e), kind)
+    ck = (key_tuple(e), kind) if not atoms else (key_tuple(e), kind, tuple(atoms))
     if cache is not None and ck in cache: return cache[ck]
-    o = observe(e, kind)
+    o = observe(e, kind, shrink_atom_fn(atoms))
     if o[0] == 'exc': r = 'exc'
     elif o[0] == 'malformed': r = 'malformed'
     else: r = 'ok' if py_equiv(e, o[1], POSITIONS[kind][1] == 'truth') is None else 'wrong'
@@ -459,21 +473,29 @@ def status(e, kind, cache=None):
     return r
 
 
-def minimise(e, kind, st, cache, mcache):
-    """Greedy shrink: always move to the smallest one-step reduction with the same failure status."""
+FAIL = ('wrong', 'malformed')
+
+
+def minimise(e, kind, st, cache, mcache, atoms=None):
+    """Greedy shrink to the minimal failing core: always move to the smallest one-step reduction that still FAILS (st = the
+    set of failure statuses that count; the default callers pass FAIL, so a malformed result may shrink to a wrong one and
+    vice versa - the finding key is taken from the core, which makes it independent of the size and the accidents of the
+    random input it was found in).  With `atoms` the original atom texts are kept (no renumbering)."""
+    sts = (st,) if isinstance(st, str) else tuple(st)
     path = []
+    at = tuple(atoms) if atoms else None
     while True:
-        ck = (key_tuple(e), kind, st)
+        ck = (key_tuple(e), kind, sts, at)
         if ck in mcache:
             res = mcache[ck]; break
         path.append(ck)
         cands = {}
         for c in reductions(e):
-            c = renumber(_fresh(c))
+            c = _fresh(c) if atoms else renumber(_fresh(c))
             cands.setdefault(key_tuple(c), c)
         nxt = None
         for k in sorted(cands, key=lambda k: (size(cands[k]), repr(k))):
-            if status(cands[k], kind, cache) == st:
+            if status(cands[k], kind, cache, atoms) in sts:
                 nxt = cands[k]; break
         if nxt is None:
             res = e; break
